@@ -36,6 +36,7 @@ import (
 	deletesvc "github.com/nspcc-dev/neofs-node/pkg/services/object/delete"
 	getsvc "github.com/nspcc-dev/neofs-node/pkg/services/object/get"
 	putsvc "github.com/nspcc-dev/neofs-node/pkg/services/object/put"
+	"github.com/nspcc-dev/neofs-node/internal/zzverif/lib/putfake"
 	"github.com/nspcc-dev/neofs-sdk-go/bearer"
 	"github.com/nspcc-dev/neofs-sdk-go/client"
 	apistatus "github.com/nspcc-dev/neofs-sdk-go/client/status"
@@ -107,10 +108,18 @@ type env struct {
 type handlers struct{ env }
 
 func (h handlers) Get(context.Context, getsvc.Prm) error      { h.r.add("handlers.Get"); return errors.New("fake") }
-func (h handlers) Put(context.Context) (*putsvc.Streamer, error) {
+func (h handlers) Put(ctx context.Context) (*putsvc.Streamer, error) {
 	h.r.add("handlers.Put(create-stream)")
+	if putSvc != nil {
+		return putSvc.Put(ctx) // real putsvc.Service over recording fakes (harness/lib/putfake)
+	}
 	return new(putsvc.Streamer), nil
 }
+
+var (
+	putSvc *putsvc.Service
+	putRec *putfake.Recorder
+)
 func (h handlers) Head(context.Context, getsvc.HeadPrm) error     { h.r.add("handlers.Head"); return errors.New("fake") }
 func (h handlers) Delete(context.Context, deletesvc.Prm) error    { h.r.add("handlers.Delete"); return errors.New("fake") }
 func (h handlers) GetRange(context.Context, getsvc.RangePrm) error { h.r.add("handlers.GetRange"); return errors.New("fake") }
@@ -346,6 +355,7 @@ func main() {
 	e := env{r, c}
 	signer := usertest.User()
 	srvKey := neofscryptotest.Signer().ECDSAPrivateKey
+	putSvc, putRec = putfake.New(putfake.Options{NodeKey: &srvKey, MaxObjectSize: 1 << 20, Epoch: 10})
 	srv := objectsvc.New(handlers{e}, fsChain{e}, storage{e}, nil, srvKey, metrics{}, aclChecker{e}, infoExt{e}, clients{e}, zap.NewNop())
 	cl, stop := dial(srv, r)
 	defer stop()
@@ -532,6 +542,9 @@ func main() {
 		}
 	}
 	for _, line := range proxyCases(srv, r, c) {
+		_ = enc.Encode(line)
+	}
+	for _, line := range putStreamCases(cl, r, c, srvKey) {
 		_ = enc.Encode(line)
 	}
 	// C45 "only": replication is served in maintenance
